@@ -36,6 +36,75 @@ pub open spec fn write_step(before: FsLog, id: int, output: Seq<u8>, ok: bool, a
     &&& (ok && output.len() > 0) ==> (after.files.dom().contains(id) && after.files[id] == output)
 }
 
+// ---------- writer.rs loops: what they iterate over and call (T7 stubs)
+#[verifier::external_body] pub struct CrateName { _p: u8 }
+#[verifier::external_body] pub struct CrateTypes { _p: u8 }
+#[verifier::external_body] pub struct ParsedRest { _p: u8 }
+/// only the field writer.rs reads is modelled
+pub struct ParsedData { pub file_name: String, pub rest: ParsedRest }
+/// the part of `typeshare_core::language::Language` that writer.rs uses
+pub trait Language {
+    /// the part of the back end's state (configuration) that determines what it generates
+    spec fn gen_key(&self) -> int;
+    /// ASSUMED: what is generated for one crate does not depend on the crates generated before it (gen_key is not changed)
+    fn generate_types(&mut self, w: &mut Vec<u8>, imports: &CrateTypes, data: ParsedData) -> (r: Result<(), IoError>)
+        ensures
+            r is Ok ==> final(w)@ == old(w)@ + out_for(old(self).gen_key(), imports, data),
+            final(self).gen_key() == old(self).gen_key();
+}
+/// bytes `generate_types` produces for one crate's data (text emission: uninterpreted)
+pub uninterp spec fn out_for(key: int, imports: &CrateTypes, data: ParsedData) -> Seq<u8>;
+impl From<IoError> for AnyhowError { #[verifier::external_body] fn from(e: IoError) -> Self { unimplemented!() } }
+/// std: `&PathBuf` dereferences to `&Path` (same path)
+impl core::ops::Deref for PathBuf {
+    type Target = Path;
+    #[verifier::external_body]
+    fn deref(&self) -> (r: &Path) ensures pid(r) == pbid(self) { unimplemented!() }
+}
+/// identity of `<output_folder>/<file_name>`
+pub uninterp spec fn module_id(folder: &Path, file_name: Seq<char>) -> int;
+/// the file a back end may write in post_generation (Swift: Codable.swift)
+pub uninterp spec fn post_id(folder: &Path) -> int;
+
+// BTreeMap by-value iteration (T4): ordered entries as a sequence
+#[verifier::external_type_specification]
+#[verifier::external_body]
+#[verifier::accept_recursive_types(K)]
+#[verifier::accept_recursive_types(V)]
+#[verifier::reject_recursive_types(A)]
+pub struct ExBTreeIntoIter<K, V, A: ::std::alloc::Allocator + Clone>(::std::collections::btree_map::IntoIter<K, V, A>);
+pub uninterp spec fn bt_entries<K, V, A: ::std::alloc::Allocator + Clone>(m: ::std::collections::BTreeMap<K, V, A>) -> Seq<(K, V)>;
+pub uninterp spec fn bt_rest<K, V, A: ::std::alloc::Allocator + Clone>(it: ::std::collections::btree_map::IntoIter<K, V, A>) -> Seq<(K, V)>;
+/// T4 desugaring of `for (k, v) in map`: `IntoIterator::into_iter` then `Iterator::next` until None (Rust reference); the two
+/// calls are made through these wrappers, whose contracts are the ASSUMED std semantics (entries in key order, each once)
+#[verifier::external_body]
+fn bt_into_iter<K, V>(m: ::std::collections::BTreeMap<K, V>) -> (it: ::std::collections::btree_map::IntoIter<K, V>)
+    ensures bt_rest(it) == bt_entries(m)
+{ m.into_iter() }
+#[verifier::external_body]
+fn bt_next<K, V>(it: &mut ::std::collections::btree_map::IntoIter<K, V>) -> (r: Option<(K, V)>)
+    ensures match r {
+        None => bt_rest(*old(it)).len() == 0,
+        Some(e) => bt_rest(*old(it)).len() > 0 && e == bt_rest(*old(it))[0] && bt_rest(*final(it)) == bt_rest(*old(it)).drop_first(),
+    }
+{ it.next() }
+/// single-file mode: the data registered under the single-file crate name, and what is generated for it
+pub uninterp spec fn single_data(m: ::std::collections::BTreeMap<CrateName, ParsedData>) -> Option<ParsedData>;
+pub uninterp spec fn no_imports() -> &'static CrateTypes;
+pub open spec fn single_out(key: int, m: ::std::collections::BTreeMap<CrateName, ParsedData>) -> Seq<u8> {
+    match single_data(m) { Some(d) => out_for(key, no_imports(), d), None => seq![] }
+}
+/// C17 for a folder: each crate's module file holds exactly what was generated for that crate in this run
+pub open spec fn modules_written(key: int, imports: &CrateTypes, folder: &Path, entries: Seq<(CrateName, ParsedData)>, n: int, files: Map<int, Seq<u8>>) -> bool {
+    forall|j: int| 0 <= j < n && out_for(key, imports, (#[trigger] entries[j]).1).len() > 0
+        ==> files.dom().contains(module_id(folder, entries[j].1.file_name@)) && files[module_id(folder, entries[j].1.file_name@)] == out_for(key, imports, entries[j].1)
+}
+/// no two crates share a module file, and none is the post-generation file
+pub open spec fn ids_distinct(folder: &Path, entries: Seq<(CrateName, ParsedData)>) -> bool {
+    (forall|a: int, b: int| 0 <= a < entries.len() && 0 <= b < entries.len() && a != b ==> module_id(folder, entries[a].1.file_name@) != module_id(folder, entries[b].1.file_name@))
+    && (forall|a: int| 0 <= a < entries.len() ==> module_id(folder, (#[trigger] entries[a]).1.file_name@) != post_id(folder))
+}
+
 // ---------- file-system calls: contracts ASSUMED (std documentation)
 /// std::fs::read: "Reads the entire contents of a file into a bytes vector."  ASSUMPTION: reading an existing file succeeds
 /// (an unreadable but identical file would be rewritten; stated, not hidden).
@@ -77,6 +146,81 @@ WCF = [
     rep(A.text('fs::write(output_path, contents)'), 'outlined_fs_write2(output_path, contents, Tracked(log))', tag='T3', cid='o_write2'),
 ]
 
+WMF = [
+    ins(A.text('import_candidates: CrateTypes,'), ' Tracked(log): Tracked<&mut FsLog>,', where='after'),
+    ins(A.ret(), '(res: ', where='before'), ins(A.ret(), ')', where='after'),
+    ins(A.sig(), '''
+    requires ids_distinct(output_folder, bt_entries(crate_parsed_data))
+    ensures
+        /*C17: every crate's generated module goes through check_write_file - whatever the folder held before*/
+        res is Ok ==> modules_written(old(lang).gen_key(), &import_candidates, output_folder, bt_entries(crate_parsed_data),
+                                      bt_entries(crate_parsed_data).len() as int, final(log).files),
+''', cid='write_multiple_files.contract'),
+    rep(A.text('for (_crate_name, parsed_data) in crate_parsed_data'), '''let ghost entries = bt_entries(crate_parsed_data);
+    let ghost key0 = lang.gen_key();
+    let mut it__ = bt_into_iter(crate_parsed_data);
+    let ghost mut done: int = 0;
+    proof { assert(entries.skip(0) =~= entries); }
+    loop''', tag='T4', note='BTreeMap by-value iteration has no vstd ghost iterator'),
+    ins(A.loop(0), '''
+        invariant_except_break
+            0 <= done <= entries.len(), bt_rest(it__) == entries.skip(done),
+            ids_distinct(output_folder, entries),
+            lang.gen_key() == key0, key0 == old(lang).gen_key(),
+            modules_written(key0, &import_candidates, output_folder, entries, done, log.files),
+        ensures
+            modules_written(key0, &import_candidates, output_folder, entries, entries.len() as int, log.files), key0 == old(lang).gen_key(),
+        decreases entries.len() - done
+    ''', cid='write_multiple_files.invariant'),
+    ins(A.loop_body(0), '''
+        match bt_next(&mut it__) { Some((_crate_name, parsed_data)) => {
+        proof { assert(entries.skip(done)[0] == entries[done]); assert(entries.skip(done).drop_first() =~= entries.skip(done + 1)); }
+        let ghost fname = parsed_data.file_name@;
+        let ghost out_i = out_for(key0, &import_candidates, parsed_data);
+        let ghost files_before = log.files;''', tag='T4'),
+    rep(A.text('Path::new(output_folder).join(&parsed_data.file_name)'), 'outlined_module_path(output_folder, &parsed_data)', tag='T3', cid='o_mpath'),
+    ins(A.text('check_write_file(&outfile, generated_contents'), ', Tracked(log)', where='after'),
+    ins(A.loop_end(0), '''
+        proof {
+            let id = module_id(output_folder, fname);
+            assert forall|j: int| 0 <= j < done + 1 && out_for(key0, &import_candidates, (#[trigger] entries[j]).1).len() > 0
+                implies log.files.dom().contains(module_id(output_folder, entries[j].1.file_name@)) && log.files[module_id(output_folder, entries[j].1.file_name@)] == out_for(key0, &import_candidates, entries[j].1) by {
+                if j < done {
+                    assert(module_id(output_folder, entries[j].1.file_name@) != id);
+                    assert(files_before.dom().contains(module_id(output_folder, entries[j].1.file_name@)));
+                }
+            }
+            done = done + 1;
+        }
+        } None => { break; } }
+    ''', tag='T4'),
+    rep(A.span('lang.post_generation(', '.context("Post generation failed")'), 'outlined_post_generation(lang, output_folder, Tracked(log))', tag='T3', cid='o_post'),
+    ins(A.span('lang.post_generation(', '.context("Post generation failed")?;'), '''
+    proof {
+        assert forall|j: int| 0 <= j < entries.len() && out_for(key0, &import_candidates, (#[trigger] entries[j]).1).len() > 0
+            implies log.files.dom().contains(module_id(output_folder, entries[j].1.file_name@)) && log.files[module_id(output_folder, entries[j].1.file_name@)] == out_for(key0, &import_candidates, entries[j].1) by {
+            assert(module_id(output_folder, entries[j].1.file_name@) != post_id(output_folder));
+        }
+    }''', where='after'),
+]
+
+WSF = [
+    ins(A.text('mut crate_parsed_data: BTreeMap<CrateName, ParsedData>,'), ' Tracked(log): Tracked<&mut FsLog>,', where='after'),
+    ins(A.ret(), '(res: ', where='before'), ins(A.ret(), ')', where='after'),
+    ins(A.sig(), '''
+    ensures
+        /*C17 single file: whatever the file held before, it now holds what this run generated*/
+        (res is Ok && single_out(old(lang).gen_key(), crate_parsed_data).len() > 0) ==>
+            final(log).files.dom().contains(pid(file_name)) && final(log).files[pid(file_name)] == single_out(old(lang).gen_key(), crate_parsed_data),
+        others_untouched(old(log).files, final(log).files, pid(file_name)),
+''', cid='write_single_file.contract'),
+    rep(A.span('crate_parsed_data .remove(&SINGLE_FILE_CRATE_NAME)', '.context("Could not get parsed data for single file output")'),
+        'outlined_single_data(&mut crate_parsed_data)', tag='T3', cid='o_single'),
+    rep(A.text('&HashMap::new()'), '&outlined_no_imports()', tag='T3', cid='o_noimp'),
+    rep(A.text('Path::new(file_name).to_path_buf()'), 'outlined_to_path_buf(file_name)', tag='T3', cid='o_pbuf'),
+    ins(A.text('check_write_file(&outfile, output'), ', Tracked(log)', where='after'),
+]
+
 NC = {'compile': False}
 UNIT = Unit(
     name='write',
@@ -99,12 +243,25 @@ impl Swift {
 ''',
     items=[
         Item('check_write_file', 'cli/src/writer.rs', ['fn check_write_file'], CWF),
+        Item('write_multiple_files', 'cli/src/writer.rs', ['fn write_multiple_files'], WMF),
+        Item('write_single_file', 'cli/src/writer.rs', ['fn write_single_file'], WSF),
         Item('write_codable_file', 'core/src/language/swift.rs', ['impl Swift {', 'fn write_codable_file'], WCF,
              wrap=('impl Swift {\n', '\n}\n')),
     ],
-    pre_verus='pub mod anyhow { pub type Result<T> = core::result::Result<T, crate::AnyhowError>; }\n'
+    pre_verus='pub mod anyhow { pub type Error = crate::AnyhowError; pub type Result<T> = core::result::Result<T, crate::AnyhowError>; }\n'
+              'use ::std::collections::BTreeMap;\n'
               'pub mod std { pub mod io { pub type Result<T> = core::result::Result<T, crate::IoError>; } }\n',
     outlines={
+        'o_mpath': dict(NC, decl='''fn outlined_module_path(output_folder: &Path, parsed_data: &ParsedData) -> (r: PathBuf)
+    ensures pbid(&r) == module_id(output_folder, parsed_data.file_name@)'''),
+        'o_post': dict(NC, decl='''fn outlined_post_generation<L: Language + ?Sized>(lang: &mut L, output_folder: &Path, Tracked(log): Tracked<&mut FsLog>) -> (r: Result<(), AnyhowError>)
+    ensures others_untouched(old(log).files, final(log).files, post_id(output_folder))   // a back end may write ONE extra file (Swift: Codable.swift)'''),
+        'o_single': dict(NC, decl='''fn outlined_single_data(crate_parsed_data: &mut BTreeMap<CrateName, ParsedData>) -> (r: Result<ParsedData, AnyhowError>)
+    ensures match r { Ok(d) => single_data(*old(crate_parsed_data)) == Some(d), Err(_) => single_data(*old(crate_parsed_data)) is None }'''),
+        'o_noimp': dict(NC, decl='''fn outlined_no_imports() -> (r: &'static CrateTypes)
+    ensures r == no_imports()'''),
+        'o_pbuf': dict(NC, decl='''fn outlined_to_path_buf(file_name: &Path) -> (r: PathBuf)
+    ensures pbid(&r) == pid(file_name)'''),
         'o_read': dict(NC, decl='''fn outlined_fs_read(outfile: &Path, Tracked(log): Tracked<&FsLog>) -> (r: Result<Vec<u8>, IoError>)
     ensures match r { Ok(buf) => log.files.dom().contains(pid(outfile)) && buf@ == log.files[pid(outfile)],
                       Err(_) => !log.files.dom().contains(pid(outfile)) }'''),
@@ -142,20 +299,26 @@ proof fn lemma_rerun_is_noop(h: FsLog, id: int, output: Seq<u8>, a: FsLog, ok2: 
     ensures b == a
 {}
 ''',
-    functions=['check_write_file', 'Swift::write_codable_file', 'lemma_last_run_wins', 'lemma_rerun_is_noop'],
+    functions=['check_write_file', 'write_multiple_files', 'write_single_file', 'Swift::write_codable_file', 'lemma_last_run_wins', 'lemma_rerun_is_noop'],
     trusted=[
         'ghost file-system log (FsLog) inserted as an erasable tracked parameter; std::fs::read/write/create_dir_all, Path::parent/exists/join '
         'outlined (T3) with contracts taken from the std documentation; ASSUMED: reading an existing file succeeds',
         'Vec<u8> == Vec<u8> is content equality (vstd)',
         'Swift::get_codable_contents / write_codable are stubs: pure functions of the configuration (text emission, not under contract)',
         'Path / PathBuf / anyhow::Error / io::Error are opaque stubs with an uninterpreted path identity',
+        'writer.rs loops: `Language` is a stub trait (generate_types appends out_for(gen_key, imports, data); ASSUMED: generating one crate does not '
+        'change what is generated for another); BTreeMap by-value iteration through two trusted wrappers (entries in order, each once); '
+        'precondition ids_distinct: no two crates map to the same module file and none to the post-generation file; post_generation may '
+        'write one designated extra file only',
     ],
     undecided=[
         'files the last run is NOT responsible for (stale outputs of removed crates, a stale Codable.swift, an existing file when the new output is empty)',
-        'that generation itself is a function of the sources only (C06) and the loops over crates in write_multiple_files / write_single_file (dyn Language)',
+        'that generation itself is a function of the sources only (C06); write_generated\'s dispatch and main.rs (which output mode, which files are parsed)',
         'real file-system behaviour beyond the ghost log (permissions, concurrent writers, partial writes)',
     ],
 )
+
+UNIT.crate_attrs = '#![feature(allocator_api)]   // only to NAME the allocator parameter of btree_map::IntoIter in an assumed specification'
 
 
 # ------------------------------------------------------------------------------------ witness search / replay
